@@ -120,14 +120,14 @@ theorem alts_of_rep {n : Nat} {t : PyTy} {w : PyVal} {x : Json} (h : rep E bad n
     exact ⟨t, by simp [this], w, n, h⟩
 
 theorem tupleInts_ok : ∀ (ts : List PyTy) (vs : List PyVal) (xs : List Json) (k : Nat),
-    all3 (rep E bad k) ts vs xs = true → ts.all PyTy.isInt = true → mapE coerceIntJ xs = .ok vs ∧ xs.length = ts.length
+    all3 (rep E bad k) ts vs xs = true → ts.all PyTy.isIntTy = true → mapE coerceIntJ xs = .ok vs ∧ xs.length = ts.length
   | [], [], [], _, _, _ => ⟨rfl, rfl⟩
   | t :: ts, v :: vs, x :: xs, k, h, hi => by
     simp only [all3, Bool.and_eq_true] at h
     simp only [List.all_cons, Bool.and_eq_true] at hi
     obtain ⟨ih1, ih2⟩ := tupleInts_ok ts vs xs k h.2 hi.2
     have h1 := h.1
-    cases t <;> try (simp [PyTy.isInt] at hi; done)
+    cases t <;> try (simp [PyTy.isIntTy] at hi; done)
     cases k with
     | zero => simp [rep] at h1
     | succ k =>
@@ -146,11 +146,11 @@ theorem tupleInts_ok : ∀ (ts : List PyTy) (vs : List PyVal) (xs : List Json) (
   | _ :: _, [], _, _, h, _ => by simp [all3] at h
   | _ :: _, _ :: _, [], _, h, _ => by simp [all3] at h
 
-theorem chk_sound (U : List PyTy) :
+theorem chk_sound (ok : PyTy → Bool) (P : PyTy → Prop) (hokP : ∀ B, ok B = true → P B) :
     ∀ (h : HExpr) (top : Bool) (T0 : PyTy) (st : St) (j : Json),
-      (∀ B ∈ U, (top = true → B.isUnionTy = false) → Valid E bad B j → Goal E bad B j) →
-      (∀ x, x.size < j.size → ∀ B ∈ U, Valid E bad B x → Goal E bad B x) →
-      chk E bad U top h T0 st = true → St.Holds E bad st j →
+      (∀ B, P B → (top = true → B.isUnionTy = false) → Valid E bad B j → Goal E bad B j) →
+      (∀ x, x.size < j.size → ∀ B, P B → Valid E bad B x → Goal E bad B x) →
+      chk E bad ok top h T0 st = true → St.Holds E bad st j →
       ∃ v', (∃ m, h.run (structTy E m) j = .ok v') ∧ Rep E bad T0 v' j
   | .ite c a b, top, T0, st, j, HL, HS, hc, hst => by
     simp only [chk] at hc
@@ -160,9 +160,9 @@ theorem chk_sound (U : List PyTy) :
       obtain ⟨T, F⟩ := tf
       simp only [hsp, Bool.and_eq_true, List.all_eq_true] at hc
       rcases split_sound E bad c st j T F hst hsp with ⟨he, t, ht, hh⟩ | ⟨he, f, hf, hh⟩
-      · obtain ⟨v', ⟨m, hm⟩, hr⟩ := chk_sound U a top T0 t j HL HS (hc.1 t ht) hh
+      · obtain ⟨v', ⟨m, hm⟩, hr⟩ := chk_sound ok P hokP a top T0 t j HL HS (hc.1 t ht) hh
         exact ⟨v', ⟨m, by simp [HExpr.run, he, bind, Except.bind, hm]⟩, hr⟩
-      · obtain ⟨v', ⟨m, hm⟩, hr⟩ := chk_sound U b top T0 f j HL HS (hc.2 f hf) hh
+      · obtain ⟨v', ⟨m, hm⟩, hr⟩ := chk_sound ok P hokP b top T0 f j HL HS (hc.2 f hf) hh
         exact ⟨v', ⟨m, by simp [HExpr.run, he, bind, Except.bind, hm]⟩, hr⟩
   | .retNone, top, T0, st, j, HL, HS, hc, hst => by
     simp only [chk, Bool.and_eq_true] at hc
@@ -278,7 +278,7 @@ theorem chk_sound (U : List PyTy) :
     have hnu : top = true → B.isUnionTy = false := by
       intro ht
       simpa [ht] using htop
-    obtain ⟨v', ⟨m, hm⟩, hr⟩ := HL B (inU_sound hu) hnu hv
+    obtain ⟨v', ⟨m, hm⟩, hr⟩ := HL B (hokP B hu) hnu hv
     exact ⟨v', ⟨m, by simpa [HExpr.run] using hm⟩, inTy_sound E bad hin hr⟩
   | .mapEach e, top, T0, st, j, HL, HS, hc, hst => by
     simp only [chk] at hc
@@ -294,7 +294,7 @@ theorem chk_sound (U : List PyTy) :
         obtain ⟨w, hw⟩ := all2_exists_left vs xs ha x hx
         obtain ⟨a, haa, w', n2, hw'⟩ := alts_of_rep E bad hw
         have hlt := size_mem_arr xs x hx
-        exact chk_sound U e false t' { ty := a } x
+        exact chk_sound ok P hokP e false t' { ty := a } x
           (fun B hB _ hvB => HS x hlt B hB hvB)
           (fun y hy B hB hvB => HS y (Nat.lt_trans hy hlt) B hB hvB)
           (hall a haa) (St.Holds.of_rep E bad hw')
